@@ -136,7 +136,7 @@ func (g *gen) genMixed(nops int, w mixW) {
 		}
 		if g.prof == "iofault" && g.r.IntN(3) == 0 {
 			switch name {
-			case "ingest", "ingestexcise", "excise", "flush", "compact", "reopen":
+			case "ingest", "ingestexcise", "excise", "flush", "compact", "reopen", "scan", "iter", "snap":
 				// a one-shot fault placed inside the operation that follows
 				g.add(DBOp{K: "armfault", Mode: pick(&g.r, armFaultNames), N: g.r.IntN(10)})
 			}
@@ -205,7 +205,15 @@ func (g *gen) genMixed(nops int, w mixW) {
 			g.add(o)
 		case "scaninternal":
 			a, b := g.prefixSpan()
-			g.add(DBOp{K: "scaninternal", Key: a, End: b})
+			o := DBOp{K: "scaninternal", Key: a, End: b}
+			if len(g.snaps) > 0 && g.r.IntN(2) == 0 {
+				// on a snapshot, often right after the memtable was rotated
+				o.Ref = pick(&g.r, g.snaps)
+				if g.r.IntN(2) == 0 {
+					g.add(DBOp{K: "aflush"})
+				}
+			}
+			g.add(o)
 		case "efos":
 			id := g.newID()
 			o := DBOp{K: "efos", ID: id}
